@@ -22,6 +22,14 @@ def hex2 (n : Nat) : String :=
   let d := fun (x : Nat) => "0123456789abcdef".toList.getD x '0'
   String.ofList [d (n / 16), d (n % 16)]
 
+def hex8 (n : Nat) : String :=
+  String.join ([n / 16777216 % 256, n / 65536 % 256, n / 256 % 256, n % 256].map hex2)
+
+/-- Adler-32 of a byte list (large reads are reported as `<len>:<adler32>`) -/
+def adler (bytes : List Nat) : Nat :=
+  let r := bytes.foldl (fun (ab : Nat × Nat) x => let a := (ab.1 + x) % 65521; (a, (ab.2 + a) % 65521)) (1, 0)
+  r.2 * 65536 + r.1
+
 def patByte (pos : Nat) : Nat := (pos * 7 + 3) % 251
 
 structure DS where
@@ -47,7 +55,9 @@ def fmtEv (g : Nat) : Ev → Option String
   | .alloc id sz => some s!"cb alloc {id} {sz} g={(g - 1) % 4}"
   | .readCb n buf bytes =>
     let b := match buf with | some id => toString id | none => "-"
-    let h := if bytes.isEmpty then "-" else String.join (bytes.map hex2)
+    let h := if bytes.isEmpty then "-"
+             else if bytes.length > 256 then s!"{bytes.length}:{hex8 (adler bytes)}"
+             else String.join (bytes.map hex2)
     some s!"cb read {n} buf={b} {h} g={(g - 1) % 4}"
   | .ret op c => some s!"ret {opName op} {c}"
   | .closeCb => some "cb close"
